@@ -24,6 +24,10 @@ CONSTS = [
     ("evalCostBits", "8 * sizeof (eval_cost)"),
     ("frameCatch", "FRAME_CATCH"),
     ("frameMask", "FRAME_MASK"),
+    ("intBits", "8 * sizeof (int)"),                        # set_eval_limit: `(int) sp->u.number` (site setLimitCast)
+    ("aggregateCountBits", "8 * sizeof (unsigned short)"),  # F_AGGREGATE: `unsigned short offset` (site aggregateAlloc)
+    ("maxSaveDepth", "MAX_SAVE_SVALUE_DEPTH"),
+    ("composeDeletedBits", "8 * sizeof (unsigned int)"),   # the type of `deleted` in compose_mapping: site composeDeletedWidth
 ]
 
 # ---------------------------------------------------------------------------
@@ -32,13 +36,17 @@ CONSTS = [
 # An efun that is in neither table breaks the tie (the check fails until it is classified).
 
 EFUN_COVERED = {
-    "explode": "explodeArray", "implode": "implodeString", "replace_string": "replaceRun/replaceFinish",
+    "explode": "explodeArray", "implode": "implodeString", "replace_string": "replaceRun/replaceFinish (pattern of 2+ characters: skip-table scan; one character pattern: replace1)",
     "allocate": "allocateArray", "allocate_buffer": "allocateBuffer", "allocate_mapping": "allocateMapping",
     "keys": "mapKeys", "values": "mapKeys", "repeat_string": "repeatString", "sprintf": "sprintfAdd/sprintfFinish (incl. %*s field widths: sprintf_pad)",
     "copy": "sameSize", "sort_array": "sameSize", "map": "sameSize", "map_array": "sameSize", "map_mapping": "sameSize",
     "lower_case": "sameSize", "upper_case": "sameSize", "capitalize": "sameSize",
     "filter": "partOf", "filter_array": "partOf", "filter_mapping": "partOf", "unique_array": "partOf",
     "unique_mapping": "partOf (at most one key per element, inserted through find_for_insert: mapInsert)",
+    "save_variable": "saveVariable (Save.lean: svalue_save_size over the value tree, then the MaxStringLength test)",
+    "restore_variable": "restoreArray / restoreMapping (allocate_array (size) and the ++count test of restore_mapping; strings are pieces of the text)",
+    "regexp": "matchRegexp (allocate_empty_array (num_match << flag))",
+    "reg_assoc": "regAssoc (allocate_empty_array (2 * num_match + 1), twice)",
 }
 _LIST = "listing of driver state: one element per object / frame / entry, clamped to MAX_ARRAY_SIZE or allocated through allocate_empty_array (errors above the limit)"
 _SMALL = "result of a fixed small size (a name, a date, a status word), or bounded by a buffer of the C code"
@@ -59,10 +67,6 @@ EFUN_EXCLUDED = {
     "read_buffer": "file / buffer input: bounded by MaxByteTransfer (own limit); file access is C15/C16",
     "read_bytes": "file input: bounded by MaxByteTransfer (own limit); file access is C15/C16",
     "read_file": "file input: bounded by MaxReadFileSize (own limit); file access is C15/C16",
-    "save_variable": "NOT ANALYSED here: the saved text of a value is as long as the value is large (C16 covers save/restore); not bounded by MaxStringLength by any test this check knows",
-    "restore_variable": "NOT ANALYSED here: rebuilds values from text (C16); mapping size is tested in restore_mapping, arrays go through allocate_empty_array",
-    "regexp": "NOT ANALYSED here: result is a subset of the input array (match_regexp allocates at most the input size)",
-    "reg_assoc": "NOT ANALYSED here: result arrays are allocated through allocate_empty_array (errors above the limit)",
     "strwrap": "not implemented by the driver (returns its argument)",
 }
 SIZED_RETURN = ("string", "mixed", "mapping", "buffer")
@@ -129,6 +133,23 @@ SITES = [
     ("repeatGuard", "lib/efuns/string.c", r"if \(count <= 0\).{0,600}?if \(len == 0\)" + W + r"return;.{0,200}?if \(repeat > \(size_t\)CONFIG_INT \(__MAX_STRING_LENGTH__\) / len\)" + W + r"error", 1, None),
     ("replaceSkipGuard", "lib/efuns/string.c", r"if \(\(size_t\)CONFIG_INT \(__MAX_STRING_LENGTH__\) - dlen <= skip\).{0,400}?dlen \+= skip;", 1, None),
     ("sprintfFinalGuard", "lib/efuns/sprintf.c", r"if \(obuff.real_size > \(size_t\)CONFIG_INT \(__MAX_STRING_LENGTH__\)\)" + W + r"sprintf_error \(ERR_BUFF_OVERFLOW\);", 1, None),
+    ("composeDeletedWidth", "lib/lpc/mapping.c", r"mapping_t\* compose_mapping \(mapping_t \* m1, mapping_t \* m2, unsigned short flag\) \{.{0,200}?unsigned int deleted = 0;.{0,1800}?deleted\+\+;.{0,900}?m1->count -= deleted;", 1, None),
+    ("saveVariableGuard", "lib/lpc/object.c", r"theSize = svalue_save_size \(var\);" + W + r"if \(theSize - 1 > \(size_t\)CONFIG_INT \(__MAX_STRING_LENGTH__\)\)" + W + r"error \(.{0,100}?\);" + W + r"new_str = new_string \(theSize - 1,", 1, None),
+    ("saveDepthGuard", "lib/lpc/object.c", r"if \(\+\+save_svalue_depth > MAX_SAVE_SVALUE_DEPTH\)" + W + r"\{" + W + r"too_deep_save_error \(\);", 3, None),
+    ("saveDepthLeave", "lib/lpc/object.c", r"save_svalue_depth--;" + W + r"return size \+ (\d+);", 3, "saveBoxOverhead"),
+    ("copyDepthGuard", "lib/efuns/unsorted.c", r"depth\+\+;" + W + r"if \(depth > MAX_SAVE_SVALUE_DEPTH\)" + W + r"\{" + W + r"depth = 0;" + W + r"error", 2, None),
+    ("regexpAlloc", "lib/lpc/array.c", r"flag &= 1;" + W + r"ret = allocate_empty_array \(num_match << flag\);", 1, None),
+    ("regAssocAlloc", "lib/lpc/array.c", r"allocate_empty_array \(2 \* num_match \+ 1\)", 2, None),
+    ("restoreArrayAlloc", "lib/lpc/object.c", r"size = restore_size \(str, 0\)\) < 0\)" + W + r"return ROB_ARRAY_ERROR;" + W + r"v = allocate_array \(size\);", 1, None),
+    ("restoreMappingGuard", "lib/lpc/object.c", r"if \(\+\+count > CONFIG_INT \(__MAX_MAPPING_SIZE__\)\)" + W + r"\{.{0,400}?mapping_too_large \(\);", 1, None),
+    ("handlerNestedKeepsState", "src/error_context.c", r"in_mudlib_error_handler = 0;" + W + r"set_error_state \(handler_limit_state\);", 2, None),
+    ("handlerSavesState", "src/error_context.c", r"handler_limit_state = limit_state;" + W + r"in_mudlib_error_handler = 1;", 2, None),
+    ("setLimitCast", "lib/efuns/unsorted.c", r"default:" + W + r"CONFIG_INT \(__MAX_EVAL_COST__\) = \(int\)sp->u.number;" + W + r"if \(CONFIG_INT \(__MAX_EVAL_COST__\) < 1\)", 1, None),
+    ("aggregateAlloc", "src/interpret.c", r"unsigned short offset;.{0,60000}?case F_AGGREGATE:" + W + r"\{" + W + r"array_t \*v;" + W + r"LOAD_SHORT \(offset, pc\);" + W + r"offset \+= \(unsigned short\)num_varargs;" + W + r"num_varargs = 0;" + W + r"v = allocate_empty_array \(\(int\) offset\);", 1, None),
+    ("callbackTickBlock", "src/interpret.c", r"svalue_t\* call_efun_callback \(function_to_call_t \* ftc, int n\) \{" + W + r"svalue_t \*v;" + W + r"(?:/\*.*?\*/)?" + W + r"if \(!--eval_cost\)" + W + r"\{" + W + r"set_error_state \(ES_MAX_EVAL_COST\);" + W + r"eval_cost = CONFIG_INT \(__MAX_EVAL_COST__\);" + W + r"error", 1, None),
+    ("pushSomeChecked", "src/stack.c", r"void push_some_svalues \(svalue_t \* v, int num\) \{" + W + r"STACK_CHECK \(num\);", 1, None),
+    ("transferPushChecked", "src/stack.c", r"void transfer_push_some_svalues \(svalue_t \* v, int num\) \{" + W + r"STACK_CHECK \(num\);", 1, None),
+    ("replaceOneGuards", "lib/efuns/string.c", r"/\* Beek: plen == 1 \*/.{0,400}?if \(rlen != 0\)" + W + r"\{" + W + r"if \(CONFIG_INT \(__MAX_STRING_LENGTH__\) - dlen <=" + W + r"rlen\).{0,500}?dlen \+= rlen;.{0,300}?if \(CONFIG_INT \(__MAX_STRING_LENGTH__\) - dlen <= 1\).{0,300}?\*dst2\+\+ = \*src\+\+;" + W + r"dlen\+\+;", 1, None),
     ("rangeClamp", "lib/lpc/operator.c", r"if \(from < 0\)" + W + r"from = 0;" + W + r"if \(to >= v->size\)" + W + r"to = v->size - 1;" + W + r"if \(to < -1\)" + W + r"to = -1;" + W + r"if \(from > v->size\)" + W + r"from = v->size;", 1, None),
 ]
 
@@ -152,6 +173,173 @@ def gen_sites(repo):
             consts[cname] = int(vals.pop())
             lines.append("/-- constant of the guard `%s` in %s -/\ndef %s : Nat := %d" % (name, rel, cname, consts[cname]))
     return "\n".join(lines) + "\n", consts, report
+
+
+
+# ---------------------------------------------------------------------------
+# translator, part 3 (gen_loop): where eval_instruction charges the evaluation cost.  Regenerated into NV/Gen/C04.lean:
+#   tickBeforeDispatch   the `if (!--eval_cost)` test stands between the fetch and `switch (instruction)` of the main loop
+#   evalLoopGotos        number of goto statements / labels in eval_instruction (a jump behind the test would skip it)
+#   backwardOps          opcodes whose case moves pc backwards (`pc -= ...`, directly or through a static helper)
+#   backwardOpsLooping   those of them that do it inside a loop of their own (would iterate without a fetch)
+#   localCallOps         opcodes that enter a function by `pc = current_prog->program + funp->address`
+# NV/C04/Loop.lean builds the charge of a fetch from these (`fetchCharge`); `bridge_backwardOps` compares the list
+# with the one the model knows.
+
+def _strip_c(text):
+    """comments, string and character literals removed (same length is not kept; braces inside them vanish)"""
+    import re
+    text = re.sub(r"/\*.*?\*/", " ", text, flags=re.S)
+    text = re.sub(r"//[^\n]*", " ", text)
+    text = re.sub(r'"(?:\\.|[^"\\\n])*"', '""', text)
+    text = re.sub(r"'(?:\\.|[^'\\\n])'", "' '", text)
+    return text
+
+
+def _drop_hooks(text):
+    """the add-only verification hooks (#ifdef NEOLITH_VERIF ... #endif) and all other preprocessor lines"""
+    out, skip = [], 0
+    for l in text.splitlines():
+        t = l.strip()
+        if t.startswith("#ifdef NEOLITH_VERIF"):
+            skip = 1
+            continue
+        if skip:
+            if t.startswith("#if"):
+                skip += 1
+            elif t.startswith("#endif"):
+                skip -= 1
+            elif t.startswith("#else") and skip == 1:
+                skip = 0
+            continue
+        if t.startswith("#"):
+            continue
+        out.append(l)
+    return "\n".join(out)
+
+
+def _block(text, start):
+    """text[start] == '{' : index just behind the matching '}'"""
+    d = 0
+    for i in range(start, len(text)):
+        if text[i] == "{":
+            d += 1
+        elif text[i] == "}":
+            d -= 1
+            if d == 0:
+                return i + 1
+    return len(text)
+
+
+def _functions(text):
+    """{name: body} of the functions defined at column 0"""
+    import re
+    fns = {}
+    for m in re.finditer(r"^(?:static\s+)?[A-Za-z_][\w \t\*]*?\b(\w+)\s*\([^;{}]*\)\s*\{", text, flags=re.M):
+        if m.group(1) in ("if", "while", "for", "switch"):
+            continue
+        b = m.end() - 1
+        fns[m.group(1)] = text[b:_block(text, b)]
+    return fns
+
+
+def _in_own_loop(body, pos):
+    """is body[pos] inside a while / for / do block of `body`?"""
+    import re
+    stack, last = [], 0
+    for i in range(pos):
+        c = body[i]
+        if c == "{":
+            head = body[last:i]
+            stack.append(bool(re.search(r"\b(while|for|do)\b[^;{}]*$", head)))
+            last = i + 1
+        elif c == "}":
+            if stack:
+                stack.pop()
+            last = i + 1
+        elif c == ";":
+            last = i + 1
+    # a loop without braces: `while (...) pc -= ...;`
+    head = body[last:pos]
+    return any(stack) or bool(re.search(r"\b(while|for|do)\b", head))
+
+
+def gen_loop(repo):
+    import re
+    from nvlib import extract as X
+    raw = open(os.path.join(repo, "src/interpret.c"), errors="replace").read()
+    text = _drop_hooks(_strip_c(raw))
+    fns = _functions(text)
+    if "eval_instruction" not in fns:
+        raise X.TieBroken("loop:eval_instruction", "eval_instruction () not found in src/interpret.c")
+    body = fns["eval_instruction"]
+    helpers = sorted(n for n, b in fns.items() if n != "eval_instruction" and re.search(r"\bpc\s*-=", b))
+    m = re.search(r"\bwhile\s*\(\s*1\s*\)\s*\{", body)
+    if not m:
+        raise X.TieBroken("loop:main-loop", "the `while (1)` loop of eval_instruction () was not found")
+    lstart = m.end() - 1
+    loop = body[lstart:_block(body, lstart)]
+    fetch = re.search(r"instruction\s*=\s*EXTRACT_UCHAR\s*\(\s*pc\+\+\s*\)\s*;", loop)
+    tick = re.search(r"if\s*\(\s*!\s*--\s*eval_cost\s*\)", loop)
+    sw = re.search(r"\bswitch\s*\(\s*instruction\s*\)\s*\{", loop)
+    ok = bool(fetch and tick and sw and fetch.start() < tick.start() < sw.start())
+    if ok:
+        between = loop[fetch.end():tick.start()]
+        # nothing but whitespace between the fetch and the test; the test is a statement of the loop body itself
+        ok = between.strip() == "" and loop[:tick.start()].count("{") - loop[:tick.start()].count("}") == 1
+        # and the block of the test ends in error (): control never falls out of it with eval_cost == 0
+        tb = loop.find("{", tick.end())
+        tblock = loop[tb:_block(loop, tb)]
+        ok = ok and bool(re.search(r"\berror\s*\(", tblock)) and loop[_block(loop, tb):sw.start()].strip() == ""
+    gotos = len(re.findall(r"\bgoto\b", body)) + len(re.findall(r"^\s*(?!default\b)[A-Za-z_]\w*\s*:\s*$", body, flags=re.M))
+    back, looping, calls = [], [], []
+    if sw:
+        sb = sw.end() - 1
+        sbody = loop[sb:_block(loop, sb)]
+        # case labels that are statements of the switch itself (brace depth 1)
+        labels, d = [], 0
+        for mm in re.finditer(r"[{}]|\bcase\s+(\w+)\s*:|\bdefault\s*:", sbody):
+            t = mm.group(0)
+            if t == "{":
+                d += 1
+            elif t == "}":
+                d -= 1
+            elif d == 1:
+                labels.append((mm.start(), mm.end(), mm.group(1) or "default"))
+        for i, (a, b, name) in enumerate(labels):
+            # the body of a label reaches to the next label that has statements of its own before it
+            j = i
+            while j + 1 < len(labels) and sbody[labels[j][1]:labels[j + 1][0]].strip() == "":
+                j += 1
+            end = labels[j + 1][0] if j + 1 < len(labels) else len(sbody)
+            cb = sbody[labels[j][1]:end]
+            hits = [x.start() for x in re.finditer(r"\bpc\s*-=", cb)]
+            via = [h for h in helpers if re.search(r"\b%s\s*\(" % h, cb)]
+            if hits or via:
+                back.append(name)
+                if any(_in_own_loop(cb, h) for h in hits) or any(
+                        _in_own_loop(cb, x.start()) for h in via for x in re.finditer(r"\b%s\s*\(" % h, cb)) or any(
+                        _in_own_loop(fns[h], x.start()) for h in via for x in re.finditer(r"\bpc\s*-=", fns[h])):
+                    looping.append(name)
+            if re.search(r"\bpc\s*=\s*current_prog->program\s*\+\s*funp->address", cb):
+                calls.append(name)
+    back, looping, calls = sorted(set(back)), sorted(set(looping)), sorted(set(calls))
+
+    def lst(xs):
+        return "[" + ", ".join('"%s"' % x for x in xs) + "]"
+    lean = "\n".join([
+        "", "/-! where eval_instruction charges the evaluation cost (props/c04.py: gen_loop, from src/interpret.c) -/",
+        "/-- the `if (!--eval_cost)` test is the statement between the fetch and `switch (instruction)` of the main loop -/",
+        "def tickBeforeDispatch : Bool := %s" % ("true" if ok else "false"),
+        "/-- goto statements and labels in eval_instruction -/", "def evalLoopGotos : Nat := %d" % gotos,
+        "/-- opcodes whose case moves pc backwards (helpers that do: %s) -/" % ", ".join(helpers),
+        "def backwardOps : List String := %s" % lst(back),
+        "/-- ... inside a loop of their own -/", "def backwardOpsLooping : List String := %s" % lst(looping),
+        "/-- opcodes that enter a function of the same program by setting pc -/",
+        "def localCallOps : List String := %s" % lst(calls),
+        "/-- ticks call_efun_callback charges per callback (site callbackTick) -/", "def callbackCharge : Nat := 1", ""])
+    return lean, {"tickBeforeDispatch": ok, "evalLoopGotos": gotos, "backwardOps": back, "backwardOpsLooping": looping,
+                  "localCallOps": calls, "helpers": helpers}
 
 
 BASE_CONF = "MaxCallDepth 200\nStackSize 2000\n"
@@ -222,6 +410,23 @@ mixed safe_body () { return call_other (this_object (), safe_fn); }
 '''
 
 
+# loops that never end under the budgets the generator uses (<= 8000): one per backward-branch opcode of
+# eval_instruction (which opcode a form compiles to is measured on every run: `#ops` lines, extra_checks)
+SPIN_FORMS = [
+    "while (1) ;", "for (;;) ;", "do { } while (1);", "int i = 0; while (i >= 0) { i = i & 1023; i++; }",
+    "int i; for (i = 0; i < 5; ) ;",                                  # F_LOOP_COND_NUMBER
+    "int i, n = 5; for (i = 0; i < n; ) ;",                           # F_LOOP_COND_LOCAL
+    "int i = 5; while (i--) i = 5;",                                  # F_WHILE_DEC
+    "mixed *a = ({ }); while (sizeof (a) < 5) ;",                      # F_BBRANCH_LT (`<` between expressions)
+    "int i = 0; do { } while (!i);",                                  # F_BBRANCH_WHEN_ZERO
+    "int i; for (i = 0; i < 5; i++) i = 0;",                          # F_LOOP_INCR (+ the loop condition run inline)
+    "int i, j = 0; foreach (i in allocate (15000)) j++;",             # F_NEXT_FOREACH: 15000 iterations > any budget used
+    "int i; for (i = 0; i < 2147483647; i++) ;",                      # F_LOOP_INCR jumping back to itself (empty body): 2^31 iterations
+]
+# a loop through each of these opcodes must have been stopped by the budget in some evaluation of the run
+SPIN_MIN_ITERATIONS = 100
+
+
 def lpc_of(root):
     """one LPC function per node; returns the source text"""
     out = [HEADER % root.term()]
@@ -250,11 +455,18 @@ def lpc_of(root):
             # sort_array of k + 1 elements makes at least k comparison callbacks (map/filter stop at the first failure)
             body.append('mixed %s () { sort_array (allocate (%d), "nosuch_function", this_object ()); return 0; }' % (name, node.n + 1))
         elif k == "S":
-            forms = ["while (1) ;", "for (;;) ;", "do { } while (1);", "int i = 0; while (i >= 0) { i = i & 1023; i++; }"]
-            body.append("mixed %s () { %s return 0; }" % (name, forms[node.form % len(forms)]))
+            body.append("mixed %s () { %s return 0; }" % (name, SPIN_FORMS[node.form % len(SPIN_FORMS)]))
         elif k == "R":
-            form = node.form % 4
-            if form == 0:      # direct
+            form = node.form % 5
+            if form == 4:      # through an efun callback that carries 8 extra arguments (push_some_svalues: STACK_CHECK)
+                # (the function declares the 13 parameters, so the pushed arguments are still on the stack when its
+                # first instruction is fetched and the high-water mark of the hook sees them)
+                params = ", ".join(["mixed e"] + ["mixed a%d" % i for i in range(8)])     # (MaxLocalVariables: 9 + 12 <= 25)
+                protos.append("mixed %s_r (%s);" % (name, params))
+                body.append("mixed %s_r (%s) { %smap_array (({ 1 }), (: %s_r :), 1, 2, 3, 4, 5, 6, 7, 8); return 0; }"
+                            % (name, params, locals_decl(min(node.n, 12)), name))
+                body.append("mixed %s () { %s_r (0, 1, 2, 3, 4, 5, 6, 7, 8); return 0; }" % (name, name))
+            elif form == 0:      # direct
                 body.append("mixed %s () { %s%s (); return 0; }" % (name, locals_decl(node.n), name))
             elif form == 1:    # mutual
                 protos.append("mixed %s_b ();" % name)
@@ -312,7 +524,7 @@ def machine_case(cid, root, cost, depth, stack, hc=0, meta=None, idx=None, via="
     # (objects are loaded before the budget is lowered: create () runs under the budget, too)
     lines = ["lpc %s.c %s" % (name, src.encode().hex()), "load p %s" % name] + first + ["depth %d" % depth, "stack %d" % stack]
     if hc:
-        lines.append("mset set_handler_catches 1")
+        lines.append("mset set_handler_catches %d" % hc)
     lines += ["shape %s" % root.term(), "ev p main"]
     m = {"origin": "generated", "kind": "machine"}
     m.update(meta or {})
@@ -322,17 +534,21 @@ def machine_case(cid, root, cost, depth, stack, hc=0, meta=None, idx=None, via="
 class C04(Prop):
     id = "C04"
     title = "Every evaluation is bounded by the configured limits"
-    lean_modules = ["NV.C04.Props", "NV.C04.Witness", "NV.C04.SpecTests"]
-    theorems = ["NV.C04.limit_error_not_swallowed", "NV.C04.limit_error_reaches_next_frame",
+    lean_modules = ["NV.C04.Props", "NV.C04.Top", "NV.C04.TopSizes", "NV.C04.Handler", "NV.C04.Witness", "NV.C04.SpecTests"]
+    theorems = ["NV.C04.handler_keeps_limit_state", "NV.C04.handler_keeps_limit_state_each", "NV.C04.model_satisfies_spec", "NV.C04.eval_completes_below_budget", "NV.C04.exec_NE", "NV.C04.szCmd_satisfies_spec", "NV.C04.szCmdC_satisfies_spec", "NV.C04.exec_call_ok_unwound", "NV.C04.limit_error_not_swallowed", "NV.C04.limit_error_reaches_next_frame",
                 "NV.C04.catch_reraises_limit_error", "NV.C04.eval_bounded", "NV.C04.eval_bounded_exact",
                 "NV.C04.eval_bounded_of_pos", "NV.C04.depth_bounded", "NV.C04.stack_checked_pushes_bounded",
                 "NV.C04.sizes_bounded", "NV.C04.replace_scan_in_bounds", "NV.C04.sprintf_bounded",
                 "NV.C04.array_size_exact", "NV.C04.sizes_bounded_derived", "NV.C04.map_count_exact",
                 "NV.C04.bridge_stackSlack", "NV.C04.bridge_depthTest", "NV.C04.bridge_clamp", "NV.C04.bridge_safeTick",
-                "NV.C04.bridge_esBits", "NV.C04.bridge_widths"]
+                "NV.C04.bridge_esBits", "NV.C04.bridge_widths",
+                "NV.C04.sizes_bounded_round4", "NV.C04.compose_count_exact", "NV.C04.save_depth_bounded",
+                "NV.C04.loop_iterations_charged", "NV.C04.bridge_backwardOps", "NV.C04.bridge_saveWalk", "NV.C04.bridge_casts"]
     witness_theorems = ["NV.C04.eval_unbounded_at_zero_budget", "NV.C04.eval_bound_attained_through_safe_apply",
                         "NV.C04.sprintf_exceeds_small_limit", "NV.C04.array_size_wraps",
-                        "NV.C04.buffer_size_wraps", "NV.C04.repeat_string_old_wraps"]
+                        "NV.C04.buffer_size_wraps", "NV.C04.repeat_string_old_wraps",
+                        "NV.C04.compose_count_wraps_16", "NV.C04.save_variable_old_exceeds",
+                        "NV.C04.handler_lost_limit_state_before_fix"]
     consts = CONSTS
     const_headers = ["src/interpret.h", "lib/rc/rc.h", "lib/lpc/include/runtime_config.h", "lpc/array.h", "lpc/buffer.h",
                      "lpc/mapping.h", "src/stralloc.h", "src/backend.h"]
@@ -340,35 +556,59 @@ class C04(Prop):
     thorough_n = 3000
     search_n = 600
     design_ref = "5/C04"
-    technique = "Lean 4 proof (limits machine + size decisions) + translator-generated constants + model/implementation correspondence"
-    level_text = ("Lean 4 theorems about an executable model of the limits machine (eval_cost tick, control-stack depth tests, "
-                  "checked pushes, error_state bits, do_catch re-raise, pop_context, safe_apply, the master's error handler) for all "
-                  "program shapes, catch nestings, configurations and fuels, and about the size decision of every array / buffer / "
-                  "mapping / string constructor for all operand sizes and int64 arguments; tied to the source by regenerated "
-                  "constants and by running generated LPC programs and constructor calls on the real driver under small limits; "
-                  "the Lean oracle judges every implementation trace (no limit error swallowed, evaluation ended and unwound, "
-                  "instruction / depth / stack / size bounds on the measured numbers)")
-    level_note = ("trusted: Lean kernel; extract.py; props/c04.py as the translator from a shape term to LPC source; the "
-                  "correspondence harness (differential, generated cases only; instruction counts are bounded by the oracle, not "
-                  "predicted by the model); the master's error handler is modelled only by its effect on error_state")
-    rule = ("cases = corpus + known-finding inputs + boundary list + seeded random cases, alternating (a) a random shape tree "
-            "(work loops of 4 forms, spin loops of 4 forms, unbounded recursion direct/mutual/function-pointer/efun-callback with "
-            "0..20 locals, recursion through catch, calls, catch frames, map/filter callbacks, safe applies via sprintf(%O), "
-            "error, throw, sort_array callbacks to a missing function) under MaxEvaluationCost 2000..8000 (1 in 12 a value the driver clamps, set through init_config or set_eval_limit), MaxCallDepth 16..60, StackSize 150..1000, master handler with/without "
-            "catch, and (b) 3..8 constructor calls with arguments around the limit, 0, negative, 2^31, 2^32+k, 2^62, INT64 "
-            "extremes under MaxArraySize/MaxBufferSize/MaxMappingSize/MaxStringLength 10..1000 (1 in 8 with limits around 65536); "
-            "and (c) 1 in 8 a sequence of inserts and in-place `m += m2` on one mapping around MaxMappingSize, each inside catch; the quantifier of the property is covered as: loops of 4 forms, direct / mutual / function-pointer / callback / catch recursion, doubling concatenation (join_self), every limit named; the histogram in the evidence lists every branch of the model's machine and every constructor with its ok/err counts (all branches are taken in the quick tier); a case is non-trivial when its trace has >= 2 lines; distinct = distinct canonical implementation trace")
-    not_covered = ["mapping * mapping (compose_mapping: keeps a subset of the left operand's keys) and the efuns marked NOT ANALYSED on the exclusion list of props/c04.py (save_variable, restore_variable, regexp, reg_assoc)",
-                   "work done inside one efun call that makes no callback (e.g. hashing, copying) is bounded by the size limits, not by the evaluation cost",
-                   "instructions the master's error handler executes after a limit error (it runs on a refreshed budget; bounded by an allowance in the oracle, not modelled)",
+    technique = ("Lean 4 proof (limits machine, interpreter-loop charge machine, size decisions, depth-limited value walks, mapping count "
+                 "bookkeeping; top theorems: the oracle applied to every model run is empty) + translator-generated constants, guard sites and "
+                 "opcode lists + model/implementation correspondence")
+    level_text = ("Lean 4 theorems about executable models of the C code, for all inputs: (1) the limits machine (eval_cost tick, "
+                  "control-stack depth tests, checked pushes, error_state bits, do_catch re-raise, pop_context, safe_apply, the master's "
+                  "error handler by its effect on error_state) for all program shapes, catch nestings, configurations and fuels - "
+                  "model_satisfies_spec: every clause the oracle applies to one evaluation (no limit error swallowed, instructions <= "
+                  "budget + allowance, depth, stack incl. slots written between fetches, both stacks unwound, nothing completes after an "
+                  "expiry) is empty on every model run; (2) a byte-code level machine of eval_instruction's loop: backward jumps + calls + "
+                  "callbacks <= ticks <= budget for every program and branch oracle, with the charge of a fetch built from facts regenerated "
+                  "from src/interpret.c (test before the dispatch, no goto, list of backward-branch opcodes); (3) the size decision of every "
+                  "array / buffer / mapping / string constructor incl. mapping * mapping, save_variable / restore_variable, regexp, "
+                  "reg_assoc for all operand sizes and int64 arguments - szCmd_satisfies_spec: the size clause never fires on the model's "
+                  "answer to any constructor command; (4) the depth-limited value walks (svalue_save_size, copy) for every value; "
+                  "(5) mapping count = nodes across inserts, partially applied `+=` and in-place `*=`.  Tied to the source by regenerated "
+                  "constants, 54 guard sites, the opcode lists, and by running generated LPC programs and constructor calls on the real "
+                  "driver under small limits; the Lean oracle judges every implementation trace")
+    level_note = ("trusted: Lean kernel; extract.py; props/c04.py as the translator from a shape term to LPC source and as the "
+                  "(regex / brace-matching) reader of the guard sites and of eval_instruction's switch; the correspondence harness "
+                  "(differential, generated cases only; instruction counts are bounded by the oracle, not predicted by the model); the "
+                  "master's error handler is modelled only by its effect on error_state (its instructions are bounded by an allowance "
+                  "of 100 per invocation in the oracle, side condition of model_satisfies_spec)")
+    rule = ("cases = corpus + fixed-finding inputs + boundary list + seeded random cases, alternating (a) a random shape tree "
+            "(work loops of 4 forms, spin loops of 12 forms - one per backward-branch opcode of eval_instruction, measured on every run "
+            "through the opcode histogram hook: a loop through each opcode must have been stopped by the budget -, unbounded recursion "
+            "direct / mutual / function-pointer / efun-callback / callback with 8 extra arguments with 0..20 locals, recursion through "
+            "catch, calls, catch frames, map/filter callbacks, safe applies via sprintf(%O), error, throw, sort_array callbacks to a "
+            "missing function) under MaxEvaluationCost 2000..8000 (1 in 12 a value the driver clamps, set through init_config or "
+            "set_eval_limit), MaxCallDepth 16..60, StackSize 150..1000, master handler plain / with catch / with catch and then an "
+            "error of its own, and (b) 3..8 constructor calls (49 constructors) with arguments around the limit, 0, negative, 2^31, "
+            "2^32+k, 2^62, INT64 extremes under MaxArraySize/MaxBufferSize/MaxMappingSize/MaxStringLength 10..1000 (1 in 8 with limits "
+            "around 65536); and (c) 1 in 8 a sequence of inserts, in-place `m += m2` and in-place `m *= m2` on one mapping around "
+            "MaxMappingSize, each inside catch; the histogram in the evidence lists every branch of the model's machine, every "
+            "constructor with its ok/err counts and the loop opcodes executed in budget-stopped runs; a case is non-trivial when its "
+            "trace has >= 2 lines; distinct = distinct canonical implementation trace")
+    not_covered = ["work done inside one efun call that makes no callback (hashing, copying, `%*s` padding, unique_array's group search) is bounded by the size limits, not by the evaluation cost",
+                   "instructions the master's error handler executes after a limit error (it runs on a refreshed budget; bounded by an allowance in the oracle, not modelled); in_error nesting beyond the two repaired paths",
+                   "C recursion depth of walks that have no limit of their own: sprintf(\"%O\") through nested function-pointer arguments, free_svalue / restore_variable on values nested tens of thousands deep (observations in notes/C04.md: stack overflow of the driver reachable with the default budget; C01 material)",
                    "wall-clock time and memory of a single efun call",
-                   "unchecked value-stack pushes (argument pushes, merge_arg_lists): confirmed defect that belongs to C01",
-                   "efuns excluded from the size decisions: see EFUN_EXCLUDED in props/c04.py (each with its reason; the check fails when an efun returning a sized value is in neither table)",
-                   "set_eval_limit(): a privileged efun that resets the budget by design"]
-    trusted = ["props/c04.py: shape term -> LPC source translator", "literal slack of 5 in reset_interpreter (src/stack.c) copied into the model"]
+                   "unchecked value-stack pushes by the interpreter itself (F_PUSH, argument pushes, merge_arg_lists): confirmed defect that belongs to C01; the slots above StackSize are watched for the generated programs only",
+                   "efuns excluded from the size decisions: see EFUN_EXCLUDED in props/c04.py (each with its reason; the check fails when an efun returning a sized value is in neither table); classes rebuilt by restore_variable are not limited by MaxArraySize",
+                   "set_eval_limit(0): a privileged efun that resets the running budget by design",
+                   "the real backend loop (eval_cost reset before each task is located as a site, the harness makes the same assignment)"]
+    trusted = ["props/c04.py: shape term -> LPC source translator", "props/c04.py: gen_loop (reader of eval_instruction's loop and switch)"]
 
     def prepare(self, ctx):
-        self.exe = E.compile_harness("c04", [os.path.join(E.VERIF, "harness/c04/c04.c")])
+        if not getattr(self, "loop_info", None):      # (gen_extra did not get that far: the tie is already reported)
+            try:
+                self.loop_info = gen_loop(E.REPO)[1]
+            except Exception:
+                self.loop_info = {"backwardOps": []}
+        backops = "".join('{"%s",%s},' % (o, o) for o in self.loop_info.get("backwardOps", []))
+        self.exe = E.compile_harness("c04", [os.path.join(E.VERIF, "harness/c04/c04.c")], extra=["-DC04_BACKOPS=" + backops])
         self.conf = E.make_mudlib(ctx.rundir, master="/c04/master.c", extra_conf=BASE_CONF)
         self.idx = dict(getattr(ctx, "gen_vals", {}) or {})
         self.raw = {}
@@ -376,7 +616,8 @@ class C04(Prop):
     def gen_extra(self, ctx, bdir):
         text, consts, report = gen_sites(E.REPO)
         self.site_report = report
-        return text
+        loop_text, self.loop_info = gen_loop(E.REPO)
+        return text + loop_text
 
     def extra_checks(self, ctx, tier, rng):
         inv = efun_inventory(E.REPO)
@@ -388,6 +629,25 @@ class C04(Prop):
         if unknown:
             problems.append({"kind": "tie-broken", "name": "efun-inventory:" + ",".join(unknown),
                              "detail": "efuns returning a sized value that are neither decided in NV/C04/Sizes.lean nor on the exclusion list of props/c04.py: %s" % unknown})
+        # every backward-branch opcode the translator found in eval_instruction must have been executed, in some
+        # evaluation of this run that the budget stopped, at least SPIN_MIN_ITERATIONS times: the generator's loop forms
+        # reach each of them (a new loop opcode needs a form here as well as a look at NV/C04/Loop.lean)
+        seen, hook = {}, False
+        for cid, lines in self.raw.items():
+            cost_err = any(l.startswith("r err es=2") or l.startswith("r err es=3") for l in lines)
+            for l in lines:
+                if l.startswith("#ops"):
+                    hook = True
+                    for t in l.split()[1:]:
+                        k, _, v = t.partition("=")
+                        if cost_err and v.isdigit():
+                            seen[k] = max(seen.get(k, 0), int(v))
+        self.loop_ops_seen = dict(sorted(seen.items()))
+        if hook:
+            missing = [o for o in self.loop_info.get("backwardOps", []) if seen.get(o, 0) < SPIN_MIN_ITERATIONS]
+            if missing:
+                problems.append({"kind": "tie-broken", "name": "loop-opcode-not-exercised:" + ",".join(missing),
+                                 "detail": "no evaluation of this run was stopped by the budget inside a loop through %s (SPIN_FORMS of props/c04.py needs a form for it)" % missing})
         return problems
 
     def run_impl(self, ctx, cases):
@@ -395,6 +655,18 @@ class C04(Prop):
         for k, v in res.items():
             self.raw[k] = list(v)
         return res
+
+    def shrink_ok(self, lines):
+        """a shrunk case must still run something (a case without output would be judged `crash missing`, which is not
+        the failure being shrunk), and a program evaluation needs its source, its object and its shape"""
+        has = lambda p: any(l.startswith(p) for l in lines)
+        if not (has("ev ") or has("sz ")):
+            return False
+        if has("ev p "):
+            return has("lpc ") and has("load p ") and has("shape ")
+        if has("sz ") or has("ev sizes "):
+            return has("load sizes ")
+        return True
 
     def canon(self, lines):
         return [l.rstrip() for l in lines if l.strip() != "" and not l.startswith("#") and not l.startswith("obs ")]
@@ -437,9 +709,24 @@ class C04(Prop):
         limit = rng.choice([8, 20, 50, 100])
         present, ops, nxt = [], [], 0
         count = 0                               # model of the size, to steer towards the limit
+        certain = True                          # False after a partially applied `+=`: which keys went in is not known
         for _ in range(rng.range(3, 10)):
-            k = rng.weighted([("inew", 4), ("iold", 2), ("abs", 5)])
-            if k == "iold" and present:
+            k = rng.weighted([("inew", 4), ("iold", 2), ("abs", 5), ("cmp", 3)])
+            if k == "cmp":
+                # m *= m2 (compose_mapping in place): the nodes whose value (= key) is a key of m2 stay
+                how = rng.weighted([("self", 2), ("none", 2), ("part", 4 if (certain and present) else 0)])
+                if how == "self":
+                    ops.append("cs:%d" % count)
+                elif how == "none":
+                    ops.append("c0:0:0")
+                    present, count, certain = [], 0, True
+                else:
+                    lo = rng.choice(present) - rng.choice([0, 0, 1, 2])
+                    n = min(limit, rng.choice([1, 2, 5, limit // 2, limit]))
+                    kept = [x for x in present if lo <= x < lo + n]
+                    ops.append("c%d:%d:%d" % (lo, n, len(kept)))
+                    present, count = kept, len(kept)
+            elif k == "iold" and present:
                 ops.append("i%do" % rng.choice(present))
             elif k == "abs":
                 n = rng.choice([0, 1, 3, limit // 2, limit - count, limit - count + 1, limit - count + 3, limit])
@@ -456,6 +743,7 @@ class C04(Prop):
                     count += new
                 else:
                     count = limit                           # partially applied: exactly MAX keys
+                    certain = False
                 nxt = frm + n + 1000
             else:
                 ops.append("i%dn" % nxt)
@@ -477,8 +765,10 @@ class C04(Prop):
         A = lambda x: N("A", kids=[x])
         R = lambda n, form=0: N("R", n, form=form)
         X = N("X")
-        for i in range(4):
+        for i in range(len(SPIN_FORMS)):
             B.append(self.mk("b-spin%d" % i, N("S", form=i)))
+            B.append(self.mk("b-c2-spin-form%d" % i, C(C(N("S", form=i))), cost=2000 + 500 * (i % 3)))
+        for i in range(4):
             B.append(self.mk("b-rec%d" % i, R(0, i)))
         # the repaired defect: nested catches around an exhausted budget / recursion depth
         B.append(self.mk("b-c1-spin", C(S)))
@@ -493,6 +783,15 @@ class C04(Prop):
         B.append(self.mk("b-hc-c1-spin", C(S), hc=1))
         B.append(self.mk("b-hc-c2-spin", C(C(S)), hc=1))
         B.append(self.mk("b-hc-c2-rec", C(C(R(0))), hc=1))
+        # repaired: a handler that completes a catch () and then raises an error of its own lost the limit bits
+        B.append(self.mk("b-hf-c1-spin", Q(C(S), W(50)), hc=2))
+        B.append(self.mk("b-hf-c2-rec", C(C(R(0))), hc=2))
+        B.append(self.mk("b-hf-spin", S, hc=2))
+        B.append(self.mk("b-hf-safe-spin-loop", Bk(4, A(S)), cost=2000, hc=2))
+        B.append(self.mk("b-hf-safe-catch-spin", Q(A(C(S)), W(10)), cost=2000, hc=2))
+        B.append(self.mk("b-hf-c-err", Q(C(E_), Q(A(E_), W(20))), hc=2))
+        B.append(self.mk("b-hf3-c2-spin", Q(C(C(S)), W(50)), hc=3))
+        B.append(self.mk("b-hf3-safe-spin", Q(A(S), W(10)), cost=2000, hc=3))
         B.append(self.mk("b-cb-c-spin", Bk(3, C(C(S)))))
         B.append(self.mk("b-c-cb-spin", C(Bk(2, S, 1))))
         B.append(self.mk("b-c-call-c-spin", C(F(2, C(F(1, S))))))
@@ -528,6 +827,9 @@ class C04(Prop):
         B.append(self.mk("b-work-forms", Q(Q(W(40, 0), W(40, 1)), Q(W(40, 2), W(40, 3)))))
         # stack: recursion with many locals under a small value stack
         B.append(self.mk("b-rec-locals", R(20), depth=150, stack=200))
+        B.append(self.mk("b-rec-cbargs", R(3, 4), depth=150, stack=150))
+        B.append(self.mk("b-c2-rec-cbargs", C(C(R(0, 4))), depth=150, stack=157))
+        B.append(self.mk("b-rec-cbargs-deep", R(0, 4), depth=20, stack=400))
         B.append(self.mk("b-c2-rec-locals", C(C(R(12, 1))), depth=150, stack=150))
         B.append(self.mk("b-nest", F(3, F(0, F(5, W(10)))), depth=12))
         # mapping count bookkeeping across a partially applied `m += m2` (error path of add_to_mapping)
@@ -555,7 +857,9 @@ class C04(Prop):
                                   "repeat 2 500", "repeat 2 501", "repeat 2 -9223372036854775808", "repeat 2 9223372036854775807",
                                   "repeat 0 4611686018427387904", "repeat 3 -1", "repeat 1000 1", "repeat 4 4611686018427387904",
                                   "implode 10 100 0", "implode 100 100 0", "implode 10 90 10", "implode 10 91 10", "implode 0 5 5",
-                                  "replace 99 100 9", "replace 100 100 9", "replace 800 100 9", "replace 100 100 8", "replace 801 99 3"]))
+                                  "replace 99 100 9", "replace 100 100 9", "replace 800 100 9", "replace 100 100 8", "replace 801 99 3",
+                                  "replace1 0 333 3", "replace1 0 334 3", "replace1 1 333 3", "replace1 999 0 3", "replace1 500 166 3",
+                                  "replace1 500 167 3", "replace1 0 0 2"]))
         B.append(self.sizes_case("b-sz-derived", {"array": 50, "mapping": 80, "string": 200},
                                  ["copy_array 50", "copy_mapping 80", "sort_array 50", "map_array 50", "lower_case 200", "filter_array 50 20",
                                   "filter_array 50 0", "unique_array 50 7", "unique_array 50 0", "array_sub 50 20", "array_and 50 20",
@@ -563,6 +867,25 @@ class C04(Prop):
         B.append(self.sizes_case("b-sz-wide", {"array": 70000, "buffer": 200000, "string": 100000},
                                  ["allocate 65535", "allocate_buffer 65535", "join 60000 30000", "sprintf 30000 30000", "sprintf 60000 40000"]))
         B.append(self.sizes_case("b-sz-sprintf", {"string": 200}, ["sprintf 100 100", "sprintf 100 101", "sprintf 200 100", "sprintf 1 1"]))
+        # round 4: mapping * mapping (repaired: the 16-bit `deleted` counter), save / restore_variable, regexp, reg_assoc
+        B.append(self.sizes_case("b-sz-compose-wide", {"mapping": 70000, "array": 80000},
+                                 ["map_compose_eq 70000 10 5", "map_compose 65536 3 0"]))   # (two 70000-key mappings: the case stays well below the per-case time limit under load)
+        B.append(self.sizes_case("b-sz-compose", {"mapping": 100},
+                                 ["map_compose 50 20 7", "map_compose_eq 50 20 20", "map_compose 100 100 100", "map_compose 0 5 0",
+                                  "map_compose 101 5 0", "map_compose_eq 30 0 0"]))
+        B.append(self.sizes_case("b-sz-save", {"string": 100, "array": 200, "mapping": 50},
+                                 ["save_array 48", "save_array 49", "save_array 0", "save_string 98 0", "save_string 99 0", "save_string 49 1",
+                                  "save_string 50 1", "save_mapping 5", "save_mapping 10", "save_nested 20", "save_nested 21", "save_nested 1"]))
+        B.append(self.sizes_case("b-sz-walk-depth", {"string": 1000, "array": 200},
+                                 ["save_nested 25", "save_nested 26", "save_nested 27", "copy_nested 25", "copy_nested 26", "copy_nested 1",
+                                  "restore_nested 25", "restore_nested 26", "restore_nested 100", "restore_nested 200", "restore_nested 201"]))
+        B.append(self.sizes_case("b-sz-restore", {"string": 1000, "array": 100, "mapping": 20},
+                                 ["restore_array 100", "restore_array 101", "restore_array 0", "restore_array 498", "restore_array 499",
+                                  "restore_mapping 20", "restore_mapping 21", "restore_mapping 0"]))
+        B.append(self.sizes_case("b-sz-regexp", {"string": 1000, "array": 100},
+                                 ["regexp 100 50 1", "regexp 100 51 1", "regexp 100 100 0", "regexp 100 30 2", "regexp 100 49 3", "regexp 100 50 3",
+                                  "regexp 0 0 1", "regexp 101 0 0", "reg_assoc 49", "reg_assoc 50", "reg_assoc 0", "reg_assoc 1"]))
+        B.append(self.mapseq_case("b-map-compose", 20, ["a100:15:15", "c105:5:5", "i300n", "cs:6", "a400:20:20", "c0:0:0", "i1n", "a500:19:19", "i2n"]))
         return B
 
     def gen_shape(self, rng, depth, st):
@@ -578,9 +901,9 @@ class C04(Prop):
             if k == "N":
                 return N("N", rng.choice([0, 1, 4, 10]))
             if k == "R":
-                return N("R", rng.choice([0, 0, 1, 4, 12, 20]), form=rng.below(4))
+                return N("R", rng.choice([0, 0, 1, 4, 12, 20]), form=rng.below(5))
             if k == "S":
-                return N("S", form=rng.below(4))
+                return N("S", form=rng.below(len(SPIN_FORMS)))
             return N(k)
         # (sprintf inside master::object_name is refused by the driver: no safe apply inside a safe apply)
         k = rng.weighted([("C", 8), ("F", 4), ("Q", 6), ("B", 3), ("A", 0 if st.get("in_safe") else 1)])
@@ -610,7 +933,7 @@ class C04(Prop):
                 continue
             if root.has(("A",)) and st["inf"] is False and rng.chance(1, 2):
                 continue
-            hc = 1 if rng.chance(1, 5) else 0
+            hc = rng.choice([1, 1, 2, 3]) if rng.chance(1, 4) else 0   # 2: the handler completes a catch and then fails itself; 3: fails at once
             via = rng.weighted([("cfgint", 6), ("reconf", 2), ("setlimit", 1)])
             if rng.chance(1, 12):       # a budget that the driver clamps to 1
                 cost = rng.choice([0, -1, -3000]) if via != "setlimit" else rng.choice([-2, -3000, 4294967296])
@@ -641,7 +964,33 @@ class C04(Prop):
                               ("explode0", 1), ("aggregate", 1), ("allocate_buffer", 3), ("add_buffer", 3),
                               ("map_insert", 3), ("map_add", 3), ("map_aggregate", 1), ("join", 4), ("join_eq", 2),
                               ("join_self", 2), ("join_num", 1), ("num_join", 1), ("repeat", 5), ("implode", 3),
-                              ("replace", 3), ("sprintf", 1), ("derived", 6)])
+                              ("replace", 3), ("replace1", 2), ("sprintf", 1), ("derived", 6), ("round4", 7)])
+            if k == "round4":
+                d = rng.choice(["map_compose", "map_compose_eq", "save_array", "save_string", "save_mapping", "save_nested",
+                                "copy_nested", "restore_nested", "restore_array", "restore_mapping", "regexp", "reg_assoc"])
+                if d in ("map_compose", "map_compose_eq"):
+                    c1, c2 = rng.range(0, lm), rng.range(0, lm)
+                    cmds.append("%s %d %d %d" % (d, c1, c2, rng.choice([0, 1, min(c1, c2) // 2, min(c1, c2)])))
+                elif d == "save_array":
+                    cmds.append("save_array %d" % max(0, rng.choice([0, 1, (ls - 4) // 2, (ls - 4) // 2 + 1, la, la + 1, ls])))
+                elif d == "save_string":
+                    cmds.append("save_string %d %d" % (max(0, rng.choice([0, 1, ls - 3, ls - 2, ls - 1, ls, (ls - 2) // 2, (ls - 2) // 2 + 1])), rng.below(2)))
+                elif d == "save_mapping":
+                    cmds.append("save_mapping %d" % rng.choice([0, 1, 5, 10, 12]))
+                elif d in ("save_nested", "copy_nested"):
+                    cmds.append("%s %d" % (d, rng.choice([1, 2, 10, 24, 25, 26, 27, 40])))
+                elif d == "restore_nested":
+                    cmds.append("restore_nested %d" % rng.choice([1, 2, 10, 26, 40, max(1, (ls - 4) // 5), max(1, (ls - 4) // 5 + 2)]))
+                elif d == "restore_array":
+                    cmds.append("restore_array %d" % max(0, rng.choice([0, 1, la, la + 1, (ls - 4) // 2, (ls - 4) // 2 + 1])))
+                elif d == "restore_mapping":
+                    cmds.append("restore_mapping %d" % min(400, max(0, rng.choice([0, 1, 5, lm - 1, lm, lm + 1]))))
+                elif d == "regexp":
+                    n_ = min(near(la, False), la + 1, 3000)
+                    cmds.append("regexp %d %d %d" % (n_, rng.choice([0, 1, n_ // 2, n_, la // 2, la // 2 + 1]), rng.below(4)))
+                else:
+                    cmds.append("reg_assoc %d" % min(ls, max(0, rng.choice([0, 1, (la - 1) // 2, (la - 1) // 2 + 1, la]))))
+                continue
             if k == "derived":
                 d = rng.choice(["copy_array", "copy_mapping", "sort_array", "map_array", "lower_case", "filter_array",
                                 "unique_array", "array_sub", "array_and", "keys", "values", "allocate_mapping", "filter_mapping", "map_mapping"])
@@ -717,6 +1066,12 @@ class C04(Prop):
                 n = min(near(la, False), la)
                 m = rng.choice([0, 1, 5, ls // max(n, 1), ls // max(n, 1) + 1])
                 cmds.append("implode %d %d %d" % (n, min(m, ls), rng.choice([0, 1, 3])))
+            elif k == "replace1":
+                r = rng.choice([2, 3, 9])
+                b = rng.choice([0, 1, ls // r - 1, ls // r, ls // r + 1, ls // (2 * r)])
+                a = rng.choice([0, 1, max(0, ls - b * r - 1), max(0, ls - b * r), max(0, ls - b * r + 1)])
+                b = max(0, min(b, ls))
+                cmds.append("replace1 %d %d %d" % (min(a, max(0, ls - b)), b, r))
             elif k == "replace":
                 b = rng.range(1, max(1, ls // 8))
                 r = rng.choice([3, 4, 9, 20])
@@ -763,7 +1118,7 @@ class C04(Prop):
                 d = ctor.setdefault(nme, {"ok": 0, "err": 0, "zero": 0})
                 d["err" if o == "sz err" else "zero" if o == "sz ok -1" else "ok"] += 1
         h["constructor_outcomes"] = dict(sorted(ctor.items()))
-        mp = {"absorb_ok": 0, "absorb_err": 0, "insert_ok": 0, "insert_err": 0}
+        mp = {"absorb_ok": 0, "absorb_err": 0, "insert_ok": 0, "insert_err": 0, "compose_ok": 0, "compose_err": 0}
         for c in cases:
             if c.meta.get("kind") != "mapseq":
                 continue
@@ -772,8 +1127,9 @@ class C04(Prop):
             if out and '"' in out[0]:
                 flags = out[0].split('"')[1].split(":")[0]
                 for o, f in zip(ops, flags):
-                    mp[("absorb" if o[0] == "a" else "insert") + ("_err" if f == "e" else "_ok")] += 1
+                    mp[("absorb" if o[0] == "a" else "compose" if o[0] == "c" else "insert") + ("_err" if f == "e" else "_ok")] += 1
         h["mapseq_ops"] = mp
+        h["loop_opcodes_in_budget_stopped_runs"] = getattr(self, "loop_ops_seen", {})
         for c in cases:
             k = c.meta.get("kind")
             if k == "machine":
